@@ -27,7 +27,9 @@ def step (line : String) : String :=
     match parseCommon l k hh sid, ofHex? letter, n.toNat? with
     | some (l, k, hh, sid), some [x], some n =>
       if op == "ck" then toHexTok (computeKey (toyHash l) k hh sid x n)
-      else if op == "rfc" then toHexTok (rfcKey (toyHash l) k hh sid x n)
+      -- `rfcKey` itself generates n+1 blocks (quadratic); by `PV.Props.C04.rfcKey_blocks_irrelevant` any block
+      -- count covering n bytes gives the same bytes, so the driver evaluates the spec with ⌈n/L⌉ blocks.
+      else if op == "rfc" then toHexTok ((rfcStream (toyHash l) k hh sid x ((n + l - 1) / l)).take n)
       else "bad-op"
     | _, _, _ => "bad-op"
   | ["act", l, k, hh, sid, role, dir, cipher, mac] =>
